@@ -39,13 +39,18 @@
                          under which MMP is safe; the real window is a few microseconds), except the pair "read CLEAN,
                          write the new sequence number", which other nodes may interleave with but which takes no time.
      DevSeqCollision     TRUE = ext2fs_mmp_new_seq may return a value another node is using (real probability 2^-31 per
-                         pair; the seed is pid^uid^sec^usec).  FALSE = fresh values.
+                         pair; the seed is pid^uid^sec^usec).  FALSE = fresh values.  (TLC: in the atomic model all
+                         invariants hold with collisions too -- the first FSCK write breaks the tie; collisions matter
+                         only together with DevNonAtomic.)
      DevSameNodename     TRUE = all nodes write the same mmp_nodename/mmp_bdevname (two tools on one host): two FSCK
-                         blocks written in the same second are byte-identical.
+                         blocks written in the same second are byte-identical.  (TLC: DetectableOverlap fails, but only
+                         with DevNonAtomic and two stalls of >= Upd seconds inside read-write pairs.)
      DevDumpClobbers     TRUE = debugfs.c before fixes/X01_dump_mmp_private_buf.patch: do_dump_mmp reads the block into
                          fs->mmp_buf, the very buffer ext2fs_mmp_stop compares the device with, so after dump_mmp a
                          foreign block is taken for the node's own and overwritten with CLEAN.
-     DevStopUnconditional, DevNoSecondWait, DevNoFsckMarker   = the three mutants (mutants/X01_*.patch).
+     DevStopUnconditional, DevNoSecondWait, DevNoFsckMarker   = what three of the mutants (mutants/X01_*.patch) do: the stop
+                         that does not compare, the start without the second wait, the start that leaves its number
+                         on the block instead of FSCK.
 *)
 EXTENDS Integers, FiniteSets, Sequences, TLC
 
